@@ -430,6 +430,93 @@ mod verif_nx_pipeline {
         assert!(failing.is_empty(), "OB pipeline/idempotent_after_reflow: formatting the formatter's own output changes nothing - also for lines wrapped a second time after a multi-line string was re-indented\n failing cases ({}):\n{}", failing.len(), failing.join("\n"));
     }
 
+    // C07 second clause on asm bodies: every instruction line of an `asm ... end` block is emitted byte for byte (lines that
+    // hold only a compiler directive are not instruction lines).  All failing inputs are collected and reported together.
+    #[test]
+    fn verif_nx_pipeline_asm_verbatim() {
+        let plain = ["  mov   eax,1", "  add eax ,  2  // c", "@@loop:  dec ecx", "  jnz   @@loop", "  db 'a  b', \"c  d\"", "\tmov\tedx , [ebx+4]", "  mov eax,1; mov edx,2", "  lock   cmpxchg [ecx],edx"];
+        let with_directive = ["  mov   eax, {$ifdef A} 1  +  3 {$else}  2  + 4 {$endif}", "  {$ifdef A}  mov   ebx,2  {$endif}", "  mov   eax,{$ifdef A}1{$else}2{$endif}+3"];
+        let mut bodies: Vec<Vec<&str>> = Vec::new();
+        for a in plain { bodies.push(vec![a]); for b in plain { bodies.push(vec![a, b]); } }
+        for d in with_directive { bodies.push(vec![d]); for a in plain { bodies.push(vec![a, d]); bodies.push(vec![d, a]); } }
+        let cfgs = [leak(config(false, 2, 2, false, 120, false)), leak(config(true, 4, 1, true, 30, true))];
+        let mut n = 0u64;
+        let mut failing: Vec<String> = Vec::new();
+        for body in &bodies {
+            for wrapper in [("procedure Foo;\nasm\n", "\nend;\n"), ("procedure Foo;\nbegin\n  X:=1;\n  asm\n", "\n  end;\n  Y:=2;\nend;\n")] {
+                let input = format!("{}{}{}", wrapper.0, body.join("\n"), wrapper.1);
+                for cfg in cfgs {
+                    let (out, _) = fmt(cfg, &input, Vec::new());
+                    // the line breaks inside the body are part of the verbatim text, the others are the configured ones
+                    let out_lines: Vec<&str> = out.split('\n').map(|l| l.trim_end_matches('\r')).collect();
+                    let mut from = 0usize;
+                    let mut ok = true;
+                    for line in body {
+                        match out_lines[from..].iter().position(|l| l == line) {
+                            Some(k) => from += k + 1,
+                            None => { ok = false; break; }
+                        }
+                    }
+                    if !ok {
+                        failing.push(format!("case=asm_line_changed input={:?}", input));
+                    }
+                    n += 1;
+                }
+            }
+        }
+        println!("NX pipeline_asm_verbatim: {} cases", n);
+        assert!(n > 400, "enumeration ran");
+        assert!(failing.is_empty(), "OB pipeline/asm_lines_verbatim: the instruction lines of an asm block are emitted byte for byte, in order\n failing cases ({}):\n{}", failing.len(), failing.join("\n"));
+    }
+
+    // C08 on corner inputs reported from the field (ill-formed input, partly ignored lines): the whitespace clauses that hold for
+    // ALL inputs.  All failing inputs are collected and reported together.
+    #[test]
+    fn verif_nx_pipeline_whitespace_corners() {
+        let inputs = [
+            "// pasfmt off\nfoo(procedure begin\n// pasfmt on\n    a   :=   1;\n\n\n\n    b;\n// pasfmt off\nend);\n// pasfmt on\nc;\n",
+            "foo(procedure begin a;   \n\n\n  ",
+            "x := procedure begin",
+            "a := 'abc   \nb;\n",
+            "\n\n\n\nclass case exports ^ goto name absolute { c } on {$endif} public not",
+            "a;   \n\n\n\n// pasfmt off\nb;  \n\n\n",
+            "a;\n\n\n\nb;   \nc  ;\n",
+            "begin\n  a;   \n\n\n\n  if b then   \n\n    c;\nend.\n",
+            "type T = class\n\n\n\n  private   \n    F: Integer;   \nend;\n",
+            "foo(procedure begin a; end,   \n\n\n\n  b);\n",
+        ];
+        let cfg = leak(config(false, 2, 2, false, 120, false));
+        let mut n = 0u64;
+        let mut failing: Vec<String> = Vec::new();
+        for input in inputs {
+            let (out, _) = fmt(cfg, input, Vec::new());
+            // lines inside a verbatim region (from a `pasfmt off` comment through the next `pasfmt on` comment) are exempt
+            let mut verbatim = false;
+            let mut blank_run = 0;
+            let mut bad: Option<&str> = None;
+            let lines: Vec<&str> = out.split('\n').collect();
+            for (i, line) in lines.iter().enumerate() {
+                let low = line.to_ascii_lowercase();
+                let turns_off = low.contains("pasfmt off");
+                let turns_on = low.contains("pasfmt on");
+                let exempt = verbatim || turns_off || turns_on;
+                if !exempt && (line.ends_with(' ') || line.ends_with('\t')) { bad = Some("line_ends_in_blanks"); }
+                if line.is_empty() && i + 1 < lines.len() { blank_run += 1; } else { blank_run = 0; }
+                if !exempt && !verbatim && blank_run >= 2 { bad = Some("two_blank_lines"); }
+                if turns_off { verbatim = true; }
+                if turns_on { verbatim = false; }
+            }
+            if out.starts_with('\n') && out.len() > 1 { bad = Some("blank_line_at_start"); }
+            if let Some(what) = bad {
+                failing.push(format!("case={} input={:?}", what, input));
+            }
+            n += 1;
+        }
+        println!("NX pipeline_whitespace_corners: {} cases", n);
+        assert!(n >= 10, "enumeration ran");
+        assert!(failing.is_empty(), "OB pipeline/canonical_whitespace_corners: outside verbatim regions and multi-line tokens no output line ends in blanks, there are never two consecutive blank lines and no blank line at the start of the file - for all inputs\n failing cases ({}):\n{}", failing.len(), failing.join("\n"));
+    }
+
     // C09 third clause: the line endings of the INPUT do not matter (inputs without line-spanning tokens), also for
     // malformed lines such as an unterminated literal or a comment at the end of a line
     #[test]
